@@ -48,8 +48,7 @@ Record case := {
   ref_res : list cres;
   impl_root : N;
   impl_pages : list cpage;
-  impl_dup : bool;      (* harness: some key was stored twice at the same time *)
-  impl_gap : bool       (* harness: at some point the real leaf chain had non-empty, empty, non-empty *)
+  impl_dup : bool       (* harness: some key was stored twice at the same time *)
 }.
 
 Definition tkey (tab : list key) (ki : N) : key := nth (N.to_nat ki) tab [].
@@ -107,14 +106,12 @@ Definition ok (c : case) : bool :=
   let '(st, rs) := run ops in
   let '(sl, srs) := s_run ops in
   let dupc := has_dup ops in
-  let gapc := has_gap ops in
   list_match (res_match tab) rs (impl_res c) &&
   (st_root st =? impl_root c) &&
   list_match (page_match tab) (dump st) (impl_pages c) &&
   list_match (res_match tab) srs (ref_res c) &&
   Bool.eqb dupc (impl_dup c) &&
-  Bool.eqb gapc (impl_gap c) &&
-  (if dupc || gapc || existsb res_failed rs then true
+  (if dupc || existsb res_failed rs then true
    else list_eqb res_eqb rs srs &&
         match scan_all st with
         | inl l => list_eqb (fun a b => bytes_eqb (fst a) (fst b) && (snd a =? snd b)) l sl
